@@ -32,3 +32,34 @@ pub broadcast proof fn lemma_id_ffs(id: Id)
 {
     assert(id_view(id) =~= ffs32());
 }
+// ---- the deleted-address marker key is decodable: what dump_naddr_deleted reads back re-encodes to the same key ----
+pub open spec fn naddr_kind(k: Seq<u8>) -> u16 { from_be16(k.subrange(0, 2)) }
+pub open spec fn naddr_author(k: Seq<u8>) -> Seq<u8> { k.subrange(2, 34) }
+pub open spec fn naddr_d(k: Seq<u8>) -> Seq<u8> { k.subrange(35, 35 + min182(k[34] as int)) }
+pub open spec fn is_naddr_key(k: Seq<u8>) -> bool {
+    exists|kind: u16, author: Seq<u8>, d: Seq<u8>| author.len() == 32 && k == #[trigger] k_naddr(kind, author, d)
+}
+pub proof fn lemma_naddr_decode(kind: u16, author: Seq<u8>, d: Seq<u8>)
+    requires author.len() == 32
+    ensures ({
+        let k = k_naddr(kind, author, d);
+        &&& k.len() == 217
+        &&& k[34] as int == min182(d.len() as int)
+        &&& naddr_kind(k) == kind && naddr_author(k) == author
+        &&& naddr_d(k) == (if d.len() <= 182 { d } else { d.subrange(0, 182) })
+        &&& k_naddr(naddr_kind(k), naddr_author(k), naddr_d(k)) == k
+    })
+{
+    let k = k_naddr(kind, author, d);
+    lemma_from_be16(kind);
+    assert(k.subrange(0, 2) =~= be16(kind));
+    assert(k.subrange(2, 34) =~= author);
+    let dl = min182(d.len() as int);
+    assert(k[34] == dl as u8);
+    let d2 = if d.len() <= 182 { d } else { d.subrange(0, 182) };
+    assert(k.subrange(35, 35 + dl) =~= d2);
+    assert(pad182(d2) =~= pad182(d));
+    assert(min182(d2.len() as int) == dl);
+    assert(k_naddr(kind, author, d2) =~= k);
+}
+pub open spec fn has_id(v: Seq<Id>, k: Seq<u8>) -> bool { exists|i: int| 0 <= i < v.len() && id_view(#[trigger] v[i]) == k }
